@@ -674,15 +674,24 @@ impl Drop for OsIpcOneShotServer {
 impl OsIpcOneShotServer {
     pub fn new() -> Result<(OsIpcOneShotServer, String), UnixError> {
         unsafe {
-            let fd = libc::socket(libc::AF_UNIX, SOCK_SEQPACKET | SOCK_FLAGS, 0);
             let temp_dir = Builder::new().tempdir()?;
-            let socket_path = temp_dir.path().join("socket");
+            let fd = libc::socket(libc::AF_UNIX, SOCK_SEQPACKET | SOCK_FLAGS, 0);
+            if fd < 0 {
+                return Err(UnixError::last());
+            }
+            // From here on the server value owns the socket, so that every early
+            // return below closes it again.
+            let server = OsIpcOneShotServer {
+                fd,
+                _temp_dir: temp_dir,
+            };
+            let socket_path = server._temp_dir.path().join("socket");
             let path_string = socket_path.to_str().unwrap();
 
             let path_c_string = CString::new(path_string).unwrap();
             let (sockaddr, len) = new_sockaddr_un(path_c_string.as_ptr());
             if libc::bind(
-                fd,
+                server.fd,
                 &sockaddr as *const _ as *const sockaddr,
                 len as socklen_t,
             ) != 0
@@ -690,17 +699,11 @@ impl OsIpcOneShotServer {
                 return Err(UnixError::last());
             }
 
-            if libc::listen(fd, 10) != 0 {
+            if libc::listen(server.fd, 10) != 0 {
                 return Err(UnixError::last());
             }
 
-            Ok((
-                OsIpcOneShotServer {
-                    fd,
-                    _temp_dir: temp_dir,
-                },
-                path_string.to_string(),
-            ))
+            Ok((server, path_string.to_string()))
         }
     }
 
